@@ -15,6 +15,12 @@ class Inconclusive(Exception):
     """anything that is not a verdict about the real code: exit 2"""
 
 
+class DriverFailed(Inconclusive):
+    def __init__(self, msg, rc, out):
+        super().__init__(msg)
+        self.rc, self.out = rc, out
+
+
 def log(*a):
     print("[verif]", *a, flush=True)
 
@@ -55,7 +61,7 @@ def run_driver(vh, args, cwd, timeout=3600, env=None):
     p = subprocess.run([vh] + args, cwd=cwd, stdout=subprocess.PIPE, stderr=subprocess.STDOUT, text=True, timeout=timeout, env=e)
     if p.returncode != 0:
         sys.stdout.write(p.stdout[-8000:])
-        raise Inconclusive("driver %s exited %d" % (args[0], p.returncode))
+        raise DriverFailed("driver %s exited %d" % (args[0], p.returncode), p.returncode, p.stdout)
     log("driver %s done in %.1fs" % (" ".join(args[:1]), time.time() - t0))
     return p.stdout
 
